@@ -579,3 +579,4 @@ for _f in _package_files():
         CORPUS[_p].append(E(f"sweep: if/else of every function in {_f} flipped (if c: A else: B -> if not c: B else: A)", (_f, "@flipif_all", "")))
         CORPUS[_p].append(E(f"sweep: every returned expression of {_f} through a temporary", (_f, "@tempret_all", "")))
         CORPUS[_p].append(E(f"sweep: every value stored to self.<attr> in {_f} through a temporary", (_f, "@tempattr_all", "")))
+        CORPUS[_p].append(E(f"sweep: alias locals of {_f} (options = self.options ...) inlined", (_f, "@inline_all", "")))
